@@ -149,6 +149,23 @@ Theorem C12_source_compare_reqs :
 Proof. split; [exact gen_same_disj|exact gen_compared_attrs]. Qed.
 Print Assumptions C12_source_compare_reqs.
 
+(* route-list clean-up (own source first / destination last: pop positions) and the twin test, as in C11; matched
+   literally too: BaseParams.update_attr deep-copies list / dict defaults (successive batches are independent),
+   requests_from_json sorts the route objects by their numeric index *)
+Theorem C12_source_route_list_cleanup : g_clean_pops = clean_pops.
+Proof. exact gen_clean_pops. Qed.
+Print Assumptions C12_source_route_list_cleanup.
+
+Theorem C12_source_twin_attributes : g_twin_attrs = twin_attrs /\ twin_attrs = compared_attrs.
+Proof. exact gen_twin_attrs. Qed.
+Print Assumptions C12_source_twin_attributes.
+
+(* the reverse candidates of step 1 come from find_reversed_path (matched literally: a crossed OMS without reverse OMS
+   raises ValueError); it collects the OMS of every element that is neither a transceiver nor a ROADM *)
+Theorem C12_source_find_reversed_path_filter : forall n el, g_rev_keeps n el = rev_keeps n el.
+Proof. exact gen_rev_keeps. Qed.
+Print Assumptions C12_source_find_reversed_path_filter.
+
 (* ---------- non-vacuity ---------- *)
 (* triangle A B C (f11_net has no B-C line): A->C direct and A->B share nothing; A->C and C->A share the link *)
 Example c12_ex_links :
